@@ -19,6 +19,7 @@ CONTRACTED = ['phylib/io/merge.py::_load_multiple_spike_times', 'phylib/io/merge
               'phylib/io/merge.py::Merger.merge']
 
 TSV_FILES = {'cluster_KSLabel.tsv': 'KSLabel', 'cluster_Amplitude.tsv': 'Amplitude', 'cluster_ContamPct.tsv': 'ContamPct'}
+SPIKE_FILES = {'spike_times.npy', 'spike_templates.npy', 'spike_clusters.npy', 'amplitudes.npy'} | set(TSV_FILES)
 
 
 # ----------------------------------------------------------------------------------------------------------
@@ -70,8 +71,9 @@ def probe_defaults(p, spec):
     return s
 
 
-def write_probe(d, p, spec):
-    """Write probe number p described by spec into directory d; returns the filled spec plus truth arrays."""
+def write_probe(d, p, spec, only=None):
+    """Write probe number p described by spec into directory d; returns the filled spec plus truth arrays.
+    only: None (the complete directory) or the set of file names to write (a writer that reads only those)."""
     s = probe_defaults(p, spec)
     os.makedirs(d, exist_ok=True)
 
@@ -79,7 +81,8 @@ def write_probe(d, p, spec):
         return a.reshape((-1, 1)) if s['colvec'] else a
 
     def save(name, a):
-        np.save(os.path.join(d, name), a)
+        if only is None or name in only:
+            np.save(os.path.join(d, name), a)
     save('spike_times.npy', vec(np.asarray(s['times']).astype(s['times_dtype'])))
     save('spike_templates.npy', vec(np.asarray(s['st']).astype(s['ids_dtype'])))
     save('spike_clusters.npy', vec(np.asarray(s['sc']).astype(s['ids_dtype'])))
@@ -101,14 +104,17 @@ def write_probe(d, p, spec):
         truth['similar_templates.npy'] = matrix_values(p, s['nt'], 0.125)
         save('similar_templates.npy', truth['similar_templates.npy'])
     for fn, rows in s['tsv'].items():
+        if only is not None and fn not in only:
+            continue
         with open(os.path.join(d, fn), 'w', newline='') as f:
             w = csv.writer(f, delimiter='\t')
             w.writerow(['cluster_id', TSV_FILES[fn]])
             for k, v in rows:
                 w.writerow([k, v])
-    with open(os.path.join(d, 'params.py'), 'w') as f:
-        f.write('dat_path = []\nn_channels_dat = %d\ndtype = %r\noffset = 0\nsample_rate = %r\nhp_filtered = False\n'
-                % (s['ncd'], 'int16', float(s['sr'])))
+    if only is None or 'params.py' in only:
+        with open(os.path.join(d, 'params.py'), 'w') as f:
+            f.write('dat_path = []\nn_channels_dat = %d\ndtype = %r\noffset = 0\nsample_rate = %r\nhp_filtered = False\n'
+                    % (s['ncd'], 'int16', float(s['sr'])))
     s['truth'] = truth
     return s
 
@@ -174,7 +180,6 @@ def case_spike_order(inp):
     yield 'times-non-decreasing', all(out[i] <= out[i + 1] for i in range(len(out) - 1)), out.tolist()
     yield 'ties-keep-probe-then-original-order', got == exp, (got, exp)
     yield 'merged-times-are-the-input-times', [int(x) for x in out] == [times_l[p][i] for p, i in exp], out.tolist()
-    yield 'time-dtype-kept', out.dtype == np.dtype(dt), str(out.dtype)
     # any per-spike array (here a 2-column payload identifying (probe, index)) follows the same permutation
     pay = [np.asarray([[p, i] for i in range(len(ts))], dtype=np.int64).reshape((-1, 2)) for p, ts in enumerate(times_l)]
     moved = M._load_multiple_spike_arrays(*pay, spike_order=order)
@@ -189,7 +194,8 @@ def case_merge(inp):
     specs = inp['probes']
     with tempdir() as root:
         dirs = [os.path.join(root, 'probe%d' % p) for p in range(len(specs))]
-        S = [write_probe(d, p, s) for p, (d, s) in enumerate(zip(dirs, specs))]
+        only = None if inp.get('e2e') else SPIKE_FILES
+        S = [write_probe(d, p, s, only) for p, (d, s) in enumerate(zip(dirs, specs))]
         out = os.path.join(root, 'merged')
         before = [dir_digest(d) for d in dirs]
         m = M.Merger(dirs, out)
@@ -216,7 +222,6 @@ def case_merge(inp):
         yield 'each-input-spike-exactly-once(count)', t.shape == (n,), t.shape
         yield 'times-non-decreasing', bool(np.all(t[1:] >= t[:-1])), t.tolist()
         yield 'spike-keeps-its-time(in-statement-order)', [int(x) for x in t] == [times_l[p][i] for p, i in order], t.tolist()
-        yield 'time-dtype-kept', t.dtype == np.dtype(S[0]['times_dtype']), str(t.dtype)
         a = load('amplitudes.npy')
         # amplitudes are pairwise distinct in every generated input, so this also pins the permutation
         yield 'spike-keeps-its-amplitude', a.shape == (n,) and a.tolist() == [float(S[p]['amps'][i]) for p, i in order], a.tolist()
@@ -287,8 +292,13 @@ def id_patterns(n):
         ([0] * n, list(range(n))[::-1]),                                # split, decreasing ids
         ([2 * (i % 2) for i in range(n)], [1 + (i % 2) * 3 for i in range(n)]),  # template gap, no cluster 0
         ([min(i, 2) for i in range(n)], [5] * (n - 1) + [2]),            # merged into a high id
+        (list(range(n))[::-1], [0] * n),                                # all merged into cluster 0: more templates than clusters
+        ([4 - (i % 2) for i in range(n)], [1 - (i % 2) for i in range(n)]),   # high template ids, low cluster ids
     ]
     return pats
+
+
+NPAT = len(id_patterns(2))
 
 
 def tsv_patterns(sc, which):
@@ -333,23 +343,30 @@ def enumerate_cases(ctx):
     tv = list(nondecreasing((0, 1, 2), (2, 3)))               # 6 + 10 vectors, every tie pattern
     tv4 = [[0, 0, 1, 1], [1, 1, 1, 1], [0, 1, 1, 2], [0, 0, 0, 2]]
     ctx.scope('Merger spike/cluster writers on real directories: 1..3 probes, 2..4 spikes each, all non-decreasing time vectors of '
-              'length 2..3 over {0,1,2} for 1-2 probes (3 probes: length 2%s), 6 id patterns (gaps, curated splits/merges, no id 0), '
+              'length 2..3 over {0,1,2} for 1-2 probes (3 probes: length 2%s), 8 id patterns (gaps, curated splits/merges, no id 0), '
               'TSV files in all/some/none of the probes, 4 (time dtype, id dtype) pairs, column-vector files'
               % ('' if quick else ' and 3'))
+    R = ctx.rng     # id pattern / TSV presence / dtype / column-vector layout drawn independently (seeded) per run
+
+    def probes_for(times_l):
+        td, idt = DT[R.randrange(4)]
+        colvec = R.randrange(6) == 0
+        # "keeps its time" is exact: half of the runs use sample numbers no float32/float64 detour would preserve
+        base = R.choice((0, (2 ** 30 + 1) if td.endswith('32') else (2 ** 62 + 1)))
+        return [build_probe(p, [base + x for x in t], R.randrange(NPAT), R.randrange(8), td, idt, colvec) for p, t in enumerate(times_l)]
     i = 0
     for t0 in tv + tv4:
-        for pat in range(6):
+        for pat in range(NPAT):
             i += 1
             td, idt = DT[i % 4]
-            ctx.run('merge', {'probes': [build_probe(0, t0, pat, i % 8, td, idt, i % 5 == 0)]})
+            ctx.run('merge', {'probes': [build_probe(0, t0, pat, (i // 4) % 8, td, idt, i % 5 == 0)]})
     for t0 in tv + tv4:
         for t1 in tv + tv4[:2]:
-            i += 1
-            if quick and i % 2:
-                continue
-            td, idt = DT[i % 4]
-            ctx.run('merge', {'probes': [build_probe(0, t0, i % 6, (i // 2) % 8, td, idt, i % 7 == 0),
-                                         build_probe(1, t1, (i // 6) % 6, (i // 3) % 8, td, idt, i % 7 == 0)]})
+            for rep in range(1 if quick else 3):
+                i += 1
+                if quick and i % 2:
+                    continue
+                ctx.run('merge', {'probes': probes_for([t0, t1])})
     tv3 = [v for v in tv if len(v) == 2] if quick else tv
     for t0 in tv3:
         for t1 in tv3:
@@ -357,10 +374,7 @@ def enumerate_cases(ctx):
                 i += 1
                 if not quick and i % 3 and len(t0) + len(t1) + len(t2) > 6:
                     continue
-                td, idt = DT[i % 4]
-                ctx.run('merge', {'probes': [build_probe(0, t0, i % 6, i % 8, td, idt, False),
-                                             build_probe(1, t1, (i // 6) % 6, (i // 8) % 8, td, idt, False),
-                                             build_probe(2, t2, (i // 36 + i) % 6, (i // 64 + 3) % 8, td, idt, False)]})
+                ctx.run('merge', {'probes': probes_for([t0, t1, t2])})
     # ---- whole driver
     ctx.scope('Merger.merge() end to end (returned TemplateModel, byte identity of complete input directories): 1..3 probes with '
               'unequal spike/channel/template counts, ties inside and across probes')
